@@ -27,7 +27,7 @@ def my_params(V):
     return a, b, c, ang(V[1], V[2]), ang(V[0], V[2]), ang(V[0], V[1])
 
 
-def build(am, setname, V, o, aslist):
+def build(am, setname, V, o, aslist, ints=None):
     """construct a Box from my numbers through the named parameter set"""
     conv = (lambda x: np.asarray(x, dtype=float).tolist()) if aslist else (lambda x: np.asarray(x, dtype=float))
     if setname == 'vects':
@@ -38,9 +38,15 @@ def build(am, setname, V, o, aslist):
         a, b, c, al, be, ga = my_params(V)
         return am.Box(a=a, b=b, c=c, alpha=al, beta=be, gamma=ga, origin=conv(o))
     if setname == 'lengths':
-        return am.Box(lx=V[0, 0], ly=V[1, 1], lz=V[2, 2], xy=V[1, 0], xz=V[2, 0], yz=V[2, 1], origin=conv(o))
+        L = [V[0, 0], V[1, 1], V[2, 2]]
+        if ints:        # whole-number lengths given as integer-typed values (Python int / numpy int), tilts stay float
+            L = [int(round(x)) for x in L] if ints == 'py' else [np.int64(round(x)) for x in L]
+        return am.Box(lx=L[0], ly=L[1], lz=L[2], xy=V[1, 0], xz=V[2, 0], yz=V[2, 1], origin=conv(o))
     if setname == 'hilo':
-        return am.Box(xlo=o[0], xhi=o[0] + V[0, 0], ylo=o[1], yhi=o[1] + V[1, 1], zlo=o[2], zhi=o[2] + V[2, 2],
+        b = [o[0], o[0] + V[0, 0], o[1], o[1] + V[1, 1], o[2], o[2] + V[2, 2]]
+        if ints:
+            b = [int(round(x)) for x in b] if ints == 'py' else [np.int64(round(x)) for x in b]
+        return am.Box(xlo=b[0], xhi=b[1], ylo=b[2], yhi=b[3], zlo=b[4], zhi=b[5],
                       xy=V[1, 0], xz=V[2, 0], yz=V[2, 1])
     raise ValueError(setname)
 
@@ -93,7 +99,15 @@ def roundtrip_cases(draw):
     compat = c['rot'] is None
     s1 = draw(st.sampled_from(LAMMPS_SETS if compat else ('vects', 'avect')))
     s2 = draw(st.sampled_from(LAMMPS_SETS))
-    return {'cell': c, 'build': s1, 'read': s2, 'aslist': draw(st.booleans())}
+    ints = None
+    if compat and s1 in ('lengths', 'hilo') and draw(st.integers(0, 2)) == 0:
+        # whole-number lengths and origin (tilts keep their fractional values), passed as integer-typed numbers
+        c = dict(c, scale=1.0)
+        for k in ('lx', 'ly', 'lz'):
+            c[k] = float(max(1, round(c[k])))
+        c['origin'] = [float(round(x)) for x in c['origin']]
+        ints = draw(st.sampled_from(['py', 'np']))
+    return {'cell': c, 'build': s1, 'read': s2, 'aslist': draw(st.booleans()), 'ints': ints}
 
 
 def oracle_roundtrip(case):
@@ -108,7 +122,9 @@ def oracle_roundtrip(case):
         return labels | {'illcond_skipped'}
     base = 1e-8
     abctol = base + 40 * EPS * cond ** 2
-    B = build(am, s1, V, o, case['aslist'])
+    B = build(am, s1, V, o, case['aslist'], case.get('ints'))
+    if case.get('ints'):
+        labels.add('int_typed_lengths')
     hilo_otol = 1e-12 * (np.abs(o).max() + np.abs(V).max())
     cmp_cell(V, o, B, abctol if s1 == 'abc' else base, 'construct via %s' % s1, compat, hilo_otol)
     require(bool(B.is_lammps_norm()) == compat or not compat,
@@ -318,7 +334,8 @@ def oracle_cache(case):
     c0 = case['start']
     V, o = gens.cell_vects(c0), gens.cell_origin(c0)
     B = am.Box(vects=V, origin=o)
-    B.reciprocal_vects  # populate the cache
+    B.reciprocal_vects  # populate the caches
+    B.inside(o + 0.5 * V.sum(axis=0))
     p = np.array(case['probe'], dtype=float)
     kinds = set()
     for step, op in enumerate(case['ops']):
@@ -358,8 +375,16 @@ def oracle_cache(case):
         ninv = np.abs(np.linalg.inv(V)).sum(axis=0).max()
         tol_s = 3 * (tolrel * 3 * cond + 1e-13 * (np.abs(o).max() + np.abs(V).max() * 3) * ninv)
         require(np.abs(gs - p).max() <= tol_s, lambda: 'step %d (%s): cartesian_to_relative uses stale cell: got %r expected %r' % (step, k, gs, p))
+        # inside() after every step of the history (any cached planes must follow origin and vectors alike)
+        pin = np.array([[0.5, 0.5, 0.5], p, [0.25, 0.75, 0.5] + np.floor(p)], dtype=float)
+        clear = ~np.any((np.abs(pin) < 1e-6) | (np.abs(pin - 1) < 1e-6), axis=1)
+        exp_in = np.all((pin >= 0) & (pin <= 1), axis=1)
+        got_in = np.asarray(B.inside(pin @ V + o))
+        require(np.array_equal(got_in[clear], exp_in[clear]),
+                lambda: 'step %d (%s): inside() = %r for relative coordinates %r (expected %r): stale planes?' % (step, k, got_in.tolist(), pin.tolist(), exp_in.tolist()))
         if op['touch']:
             B.reciprocal_vects
+            B.planes
     labels = {'ops%d' % len(case['ops'])}
     if len(kinds) >= 2:
         labels.add('nt')
@@ -368,7 +393,7 @@ def oracle_cache(case):
 
 CLAUSES = [
     Clause('roundtrip', oracle_roundtrip, roundtrip_cases, quick=16000, thorough=400000,
-           min_share={'nt': 0.25, 'read_abc': 0.1, 'read_hilo': 0.05},
+           min_share={'nt': 0.25, 'read_abc': 0.1, 'read_hilo': 0.05, 'int_typed_lengths': 0.03},
            desc='build from one parameter set, read another, rebuild: same cell (same vectors if LAMMPS-compatible, else same Gram matrix/handedness)'),
     Clause('getters', oracle_getters, getters_cases, quick=8000, thorough=200000, min_share={'nt': 0.5},
            desc='a,b,c,alpha,beta,gamma,volume,reciprocal vectors, LAMMPS getters against independent formulas'),
